@@ -189,6 +189,33 @@ func loadImpl(a map[string]any) (res any) {
 	} else {
 		out["unsigned_env_reload"] = reload(uenv, "uenv.json")
 	}
+	// an envelope holding this payload is offered content that cannot be represented: it must refuse
+	// and stay as it was (payload, signature still verifying)
+	out["refusal"] = nil
+	if link, ok := md.GetPayload().(intoto.Link); ok {
+		renv := &intoto.Envelope{}
+		if renv.SetPayload(link) == nil && renv.Sign(dummyEdKey) == nil {
+			snap := func() string {
+				b, _ := json.Marshal(renv.GetPayload())
+				pp := filepath.Join(dir, "renv.json")
+				renv.Dump(pp)
+				raw, _ := os.ReadFile(pp)
+				return string(b) + "|" + string(raw)
+			}
+			before := snap()
+			bad := link
+			bad.ByProducts = map[string]interface{}{"frac": 0.5}
+			err := renv.SetPayload(bad)
+			switch {
+			case err == nil:
+				out["refusal"] = "accepted"
+			case snap() != before:
+				out["refusal"] = "refused-changed"
+			default:
+				out["refusal"] = "refused-unchanged"
+			}
+		}
+	}
 	// SetPayload -> (sign with a dummy key) -> Dump -> LoadMetadata
 	env := &intoto.Envelope{}
 	if err := env.SetPayload(md.GetPayload()); err != nil {
@@ -408,3 +435,4 @@ func runC11(r *Runner, tier string, rng *Rng) {
 	flush()
 	r.St.Rule = "generated links/layouts with odd strings (quotes, backslashes, all kinds of control characters, U+2028, astral, empty), nested by-products incl. non-integral numbers, nil/empty collections, constraints and CA maps; each metadata in three re-serialisations (key order, whitespace, escape style); compared: canonical bytes, DSSE payload bytes, reload of the dumped envelope. Class = (kind/wrapper, serialisation, outcome prefix)."
 }
+
